@@ -195,6 +195,18 @@ def sharing_cases(_=None):
             ('alias into a common subtree vs equal copy (list)', fdl.Config(f, holder, lst_inner),
              fdl.Config(f, holder, [1, 2]), False),
             ('alias into a common subtree, both sides', fdl.Config(f, model, enc), fdl.Config(f, model, enc), True)]
+  # an explicitly set argument whose value equals the parameter's default (a non-internable object),
+  # shared between two nodes on one side and two separate objects on the other
+  spec_shared = _pool.Cls(1)
+  def two_layers(a, b):
+    return fdl.Config(f, fdl.Config(_with_obj_default, spec=a), fdl.Config(_with_obj_default, spec=b))
+  pairs += [('default-equal object shared vs separate', two_layers(spec_shared, spec_shared),
+             two_layers(_pool.Cls(1), _pool.Cls(1)), False),
+            ('default-equal object separate vs separate', two_layers(_pool.Cls(1), _pool.Cls(1)),
+             two_layers(_pool.Cls(1), _pool.Cls(1)), True),
+            ('default-equal list shared vs separate',
+             fdl.Config(f, fdl.Config(_with_obj_default, items=(dl := [1, 2])), fdl.Config(_with_obj_default, items=dl)),
+             fdl.Config(f, fdl.Config(_with_obj_default, items=[1, 2]), fdl.Config(_with_obj_default, items=[1, 2])), False)]
   # dict insertion order is ignored also when a node is shared across the entries
   sh = fdl.Config(dags.node_fn(1), 2)
   pairs += [('dict order, node shared across entries', fdl.Config(f, {'a': sh, 'b': sh}),
@@ -237,6 +249,13 @@ def sharing_cases(_=None):
       bad('== is not transitive', 'transitivity')
       break
   return n, len(pairs), viols, [dict(scenario='sharing / dict keys', pairs=[p[0] for p in pairs])]
+
+
+from layerb import pool as _pool_mod   # noqa: E402
+
+
+def _with_obj_default(spec=_pool_mod.Cls(1), items=[1, 2]):   # pylint: disable=dangerous-default-value
+  return ('layer', spec, items)
 
 
 def replay(case):
